@@ -155,8 +155,9 @@ type G struct {
 	S      *Scenario
 	serial int
 	// per-flow generation state
-	resultNames []string
-	forceKind   string
+	resultNames                   []string
+	forceKind                     string
+	idiom, forceResult, forceWait bool
 }
 
 func (g *G) uuid(kind int) string {
